@@ -1160,8 +1160,13 @@ pub fn run(sc: &Scenario, opts: &RunOpts) -> Outcome {
 /// Runs `f` on a fresh thread with the stack size a caller's main thread
 /// would have, so that deep recursion is judged against a realistic limit.
 pub fn on_big_stack<T: Send + 'static>(f: impl FnOnce() -> T + Send + 'static) -> T {
+    on_stack(8 * 1024 * 1024, f)
+}
+
+/// Runs `f` on a fresh thread with a stack of `bytes`.
+pub fn on_stack<T: Send + 'static>(bytes: usize, f: impl FnOnce() -> T + Send + 'static) -> T {
     std::thread::Builder::new()
-        .stack_size(8 * 1024 * 1024)
+        .stack_size(bytes)
         .spawn(f)
         .expect("spawn worker thread")
         .join()
